@@ -203,10 +203,11 @@ package pipeline
 //@   ensures [simple] ret == simpleMatrix(m)
 
 //@ func (MatrixSetup).MarshalYAML
-//@   pure
 //@   assigns nothing
 //@   ensures [anon]  len(ms) == 1 && len(ms[""]) > 0 ==> ret1 == nil && ret0 == box([]string, ms[""])
-//@   ensures [named] !(len(ms) == 1 && len(ms[""]) > 0) ==> ret1 == nil && ret0 == box(map[string][]string, ms)
+//@   ensures [named] !(len(ms) == 1 && len(ms[""]) > 0) && ms != nil ==> ret1 == nil && ret0 == box(map[string][]string, ms)
+//@   ensures [nil]   ms == nil ==> ret1 == nil && typeis(ret0, map[string][]string) && unbox(ret0, map[string][]string) != nil &&
+//@       fresh(unbox(ret0, map[string][]string)) && len(unbox(ret0, map[string][]string)) == 0
 
 //@ func (MatrixAdjustmentWith).MarshalYAML
 //@   pure
@@ -223,7 +224,7 @@ package pipeline
 //@ func (MatrixSetup).MarshalJSON
 //@   assigns nothing
 //@   ensures [anon]  ret1 == nil && len(ms) == 1 && len(ms[""]) > 0 ==> jsonOf(ret0, box([]string, ms[""]))
-//@   ensures [named] ret1 == nil && !(len(ms) == 1 && len(ms[""]) > 0) ==> jsonOf(ret0, box(map[string][]string, ms))
+//@   ensures [named] ret1 == nil && !(len(ms) == 1 && len(ms[""]) > 0) && ms != nil ==> jsonOf(ret0, box(map[string][]string, ms))
 
 //@ func (MatrixAdjustmentWith).MarshalJSON
 //@   assigns nothing
